@@ -37,6 +37,7 @@ type MPlan struct {
 	Items       []MItem `json:"items"`
 	OptimizeOff bool    `json:"optimize_off,omitempty"`
 	OneLine     bool    `json:"one_line,omitempty"` // script driver: the whole body on one source line (nested loops share a line)
+	NilStart    int     `json:"nil_start,omitempty"` // script driver: the map variable starts as a nil map; the first N items (reads only) run against it
 	Literal     bool    `json:"literal,omitempty"`  // the initial pairs are given to the constructor / a map literal with computed keys (repeats allowed: the last wins, as in Go)
 }
 
@@ -63,7 +64,7 @@ func (mapiter) Describe() core.EngineInfo {
 		Real:       []string{"goatlang stringMap/numericMap (Set/Get/Delete/Len/Range, key-list compaction), NewMap, codes SET/GET/GETOK/DELETE/LEN/RANGE/ITER and fused FASTGET/FASTSET through the compiler and VM"},
 		Stubs:      []string{"Go's randomised map iteration inside the key-list compaction -> seeded permutation (hook verifOrderStrings/verifOrderFloats)"},
 		Assumes:    []string{"no order is required of a range", "NaN keys excluded (as the property says)", "+0 and -0 are one key (as in Go)"},
-		ProbesWant: []string{"compactions", "cursor_across_compaction", "reinsert", "delete_ahead_of_cursor", "delete_behind_cursor", "delete_current", "insert_during_loop", "nested_cursors", "driver_host", "driver_script", "maps_keys", "one_line_script", "literal_with_repeated_key", "exhausted", "abandoned"},
+		ProbesWant: []string{"compactions", "cursor_across_compaction", "reinsert", "delete_ahead_of_cursor", "delete_behind_cursor", "delete_current", "insert_during_loop", "nested_cursors", "driver_host", "driver_script", "maps_keys", "one_line_script", "literal_with_repeated_key", "nil_map_start", "exhausted", "abandoned"},
 	}
 }
 
@@ -145,6 +146,20 @@ func (e mapiter) genPlan(r *core.PRNG) *MPlan {
 	ni := r.Intn(p.Universe + 1)
 	for i := 0; i < ni; i++ {
 		p.Initial = append(p.Initial, r.Intn(p.Universe))
+	}
+	if p.Driver == "script" && r.Chance(1, 4) {
+		// reads, len, delete and range on a nil map, before the first make
+		p.Initial, p.Literal = nil, false
+		p.NilStart = 1 + r.Intn(5)
+		for i := 0; i < p.NilStart; i++ {
+			g.id++
+			it := MItem{ID: g.id, Kind: core.Pick(r, []string{"get", "getok", "len", "del", "loop", "keys"}), Key: r.Intn(p.Universe)}
+			if it.Kind == "loop" {
+				g.cursor++
+				it.Cursor = g.cursor
+			}
+			p.Items = append(p.Items, it)
+		}
 	}
 	n := 3 + r.Intn(30)
 	if p.Driver == "host" && r.Chance(1, 3) {
@@ -672,7 +687,11 @@ func (p *MPlan) render() string {
 	var b strings.Builder
 	_, _, ks, es := p.types()
 	b.WriteString("package main\nimport \"host\"\nimport \"golang.org/x/exp/maps\"\ntype T struct { A int }\nvar negZero = host.NegZero()\n")
-	fmt.Fprintf(&b, "var m = map[%s]%s{}\n", ks, es)
+	if p.NilStart > 0 {
+		fmt.Fprintf(&b, "var m map[%s]%s\n", ks, es)
+	} else {
+		fmt.Fprintf(&b, "var m = map[%s]%s{}\n", ks, es)
+	}
 	var body strings.Builder
 	if p.Literal && len(p.Initial) > 0 {
 		// computed keys (variables), so that repeated keys are legal Go: the last pair wins
@@ -690,7 +709,22 @@ func (p *MPlan) render() string {
 			fmt.Fprintf(&body, "\tm[%s] = %s; host.Init(%d)\n", p.keyLit(k), p.elemLit(1000+k), k)
 		}
 	}
-	p.renderItems(&body, p.Items, "\t", 0)
+	if p.NilStart > 0 {
+		// only reads run against the nil map (a write to a nil map is an error in Go as well)
+		n := 0
+		for n < p.NilStart && n < len(p.Items) {
+			k := p.Items[n].Kind
+			if k == "loop" && len(p.Items[n].Body) > 0 || k == "set" || k == "curset" || k == "curdel" || k == "clone" {
+				break
+			}
+			n++
+		}
+		p.renderItems(&body, p.Items[:n], "\t", 0)
+		fmt.Fprintf(&body, "\tm = map[%s]%s{}\n", ks, es)
+		p.renderItems(&body, p.Items[n:], "\t", 0)
+	} else {
+		p.renderItems(&body, p.Items, "\t", 0)
+	}
 	text := body.String()
 	if p.OneLine {
 		lines := strings.Split(strings.TrimSpace(text), "\n")
@@ -785,6 +819,9 @@ func (mapiter) Execute(plan any, keep bool) *core.Result {
 	run.h.C.Inc("driver_" + p.Driver)
 	if p.OneLine {
 		run.h.C.Inc("one_line_script")
+	}
+	if p.NilStart > 0 && p.Driver == "script" {
+		run.h.C.Inc("nil_map_start")
 	}
 	if p.Literal {
 		seenK := map[int]bool{}
@@ -900,6 +937,15 @@ func (mapiter) Shrink(plan any) []func() any {
 	}
 	if p.OptimizeOff {
 		mod(func(q *MPlan) { q.OptimizeOff = false })
+	}
+	if p.NilStart > 0 {
+		mod(func(q *MPlan) { q.NilStart = 0 })
+	}
+	if p.OneLine {
+		mod(func(q *MPlan) { q.OneLine = false })
+	}
+	if p.Literal {
+		mod(func(q *MPlan) { q.Literal = false })
 	}
 	return out
 }
